@@ -41,8 +41,9 @@ input, not proved; A = assumed)
   `edited_spans_nested` (C10); after rebalancing `balance_sized`, `balance_root_extent`.  J on the API: `api:child_in_parent`,
   `api:siblings_ordered_disjoint`
 * "every row/column equals the position obtained by counting newlines" ....................... P(h): `rowcol_by_newlines` (+ `yields_total`,
-  `extentOf_snoc`) under h = `Yields` (every LEAF's padding and size measure consecutive pieces of the text) — h is about the lexer and
-  is NOT evaluated as such; the CONCLUSION is judged on every raw node of every tree (`rowcol`).  `balance_yields`: rebalancing keeps h
+  `extentOf_snoc`) under h = `Yields` (every LEAF's padding and size measure consecutive pieces of the text).  The lexer half of h is P
+  (`LexYields.lean`: `lexer_position_is_measure`, `token_measures`, `lexed_leaf_yields` over the lexer.c port of C09/C13: default range, UTF-8, any chunking);
+  that the parser assembles leaves from consecutive lexer positions is A; the CONCLUSION is judged on every raw node of every tree (`rowcol`).  `balance_yields`: rebalancing keeps h
 * "every byte that is not skipped whitespace/extra lies inside a leaf" ....................... J only (`padding_skippable`,
   `trailing_skippable`; two known findings of the lexer generator)
 * "a literal-string token node covers exactly that string" ................................... J only (`literal`; subject of C14)
@@ -52,7 +53,8 @@ input, not proved; A = assumed)
   FALSE on the unchanged code (`has_error_full_false`: ERROR leaf, known finding with fix) and P(h) for the repaired function
   (`has_error_fixed_iff`)
 * "advertised child, named-child and descendant counts equal what enumeration finds" ......... P(h): `summarize_counts` (h as above);
-  kept by rebalancing: `compress_summarized`, `balance_summarized` (h = `balanceOK`, evaluated); J `count:*` through the API
+  kept by rebalancing: `compress_summarized`, `balance_summarized` (h = `balanceOK`, evaluated); J `count:*` through the API;
+  the counts fit their C fields: `counts_fit_32` (WidthProps.lean) + the field widths of the real struct measured on every run (`tie:cached-field-widths…`)
 * summaries themselves (support) ............................................................... P: `summarize_padding_size`, `nodeOK_summarize`;
   T-corr recomputes every cached summary of every inner node of every real tree
 
